@@ -69,6 +69,9 @@ func k3(args []string) {
 	for i := 0; i < 6; i++ {
 		emit("map", fmt.Sprintf("typed n=%d", i), it.MapTypedImpl(i), it.MapTypedNative(i), "")
 	}
+	for _, c := range it.MapNaNCases() {
+		emit("map", c[0], c[1], c[2], "")
+	}
 	emit("map", "nil map", it.MapNilImpl(), "0", "")
 	for i := 0; i < 6; i++ {
 		var vals []int
